@@ -1984,9 +1984,202 @@ package sdf
 //@   invariant 0 forall k int :: 0 <= k && k < i ==> v[k].Length2() == sq(radius)
 //@   invariant 0 forall k int :: 1 <= k && k < i ==> v[k] == m.MulPosition(v[k - 1])
 //@   invariant 0 i >= 1 ==> p == m.MulPosition(v[i - 1])
+//@   invariant 0 i == 0 ==> p == v2.Vec{radius, 0}
 //@   invariant 0 i >= 1 ==> v[0] == v2.Vec{radius, 0}
 //@   ensures [fewer-than-three-sides-is-nothing] n < 3 ==> isnil(r)
 //@   ensures [n-vertices] n >= 3 ==> len(r) == n && r[0] == v2.Vec{radius, 0}
 //@   ensures [all-on-the-circle] forall k int :: n >= 3 && 0 <= k && k < n ==> r[k].Length2() == sq(radius)
 //@   ensures [each-the-previous-one-turned-by-a-full-turn-over-n] forall k int :: n >= 3 && 1 <= k && k < n ==> r[k] == Rotate(2*PI/real(n)).MulPosition(r[k - 1])
+//@ end
+
+// Bezier: power-basis coefficients of the Bernstein form, per degree.
+//@ spec zs(c float64, sum float64, exact float64) = c == exact || (c == 0 && abs(exact)/sum < 1e-12)
+//@ spec bpwf(p *BezierPolynomial) = 0 <= p.n && p.n <= 4 && (p.n < 4 ==> p.e == 0) && (p.n < 3 ==> p.d == 0) && (p.n < 2 ==> p.c == 0) && (p.n < 1 ==> p.b == 0)
+//@ spec horner(p *BezierPolynomial, t float64) = p.a + t*(p.b + t*(p.c + t*(p.d + t*p.e)))
+
+//@ func BezierPolynomial.f0
+//@   property C17
+//@   id horner
+//@   pure
+//@   requires bpwf(p)
+//@   ensures [the-polynomial-with-the-stored-coefficients] r == horner(p, t)
+//@ end
+
+//@ func BezierPolynomial.Set
+//@   property C17
+//@   id power-basis-of-the-bernstein-form
+//@   requires 1 <= len(x) && len(x) <= 5
+//@   requires p.a == 0 && p.b == 0 && p.c == 0 && p.d == 0 && p.e == 0
+//@   let n = len(x) - 1
+//@   let a = x[0]
+//@   let b = ite(n == 1, x[1] - x[0], ite(n == 2, 2*(x[1] - x[0]), ite(n == 3, 3*(x[1] - x[0]), ite(n == 4, 4*(x[1] - x[0]), 0))))
+//@   let c = ite(n == 2, x[0] - 2*x[1] + x[2], ite(n == 3, 3*(x[0] - 2*x[1] + x[2]), ite(n == 4, 6*(x[0] - 2*x[1] + x[2]), 0)))
+//@   let d = ite(n == 3, x[3] - 3*x[2] + 3*x[1] - x[0], ite(n == 4, 4*(x[3] - 3*x[2] + 3*x[1] - x[0]), 0))
+//@   let e = ite(n == 4, x[4] - 4*x[3] + 6*x[2] - 4*x[1] + x[0], 0)
+//@   let sum = abs(a) + abs(b) + abs(c) + abs(d) + abs(e)
+//@   ensures [coefficients-of-the-control-points-or-zeroed-when-negligible] zs(p.a, sum, a) && zs(p.b, sum, b) && zs(p.c, sum, c) && zs(p.d, sum, d) && zs(p.e, sum, e)
+//@   ensures [order-is-the-highest-non-zero-coefficient-at-most-the-control-count] 0 <= p.n && p.n <= n && (p.n < 4 ==> p.e == 0) && (p.n < 3 ==> p.d == 0) && (p.n < 2 ==> p.c == 0) && (p.n < 1 ==> p.b == 0)
+//@ end
+
+//@ lemma bezier_power_basis_is_the_bernstein_form(x0 float64, x1 float64, x2 float64, x3 float64, x4 float64, t float64)
+//@   property C17
+//@   let u = 1 - t
+//@   ensures [linear] x0 + t*(x1 - x0) == u*x0 + t*x1
+//@   ensures [quadratic] x0 + t*(2*(x1 - x0) + t*(x0 - 2*x1 + x2)) == u*u*x0 + 2*u*t*x1 + t*t*x2
+//@   ensures [cubic] x0 + t*(3*(x1 - x0) + t*(3*(x0 - 2*x1 + x2) + t*(x3 - 3*x2 + 3*x1 - x0))) == u*u*u*x0 + 3*u*u*t*x1 + 3*u*t*t*x2 + t*t*t*x3
+//@   ensures [quartic] x0 + t*(4*(x1 - x0) + t*(6*(x0 - 2*x1 + x2) + t*(4*(x3 - 3*x2 + 3*x1 - x0) + t*(x4 - 4*x3 + 6*x2 - 4*x1 + x0)))) == u*u*u*u*x0 + 4*u*u*u*t*x1 + 6*u*u*t*t*x2 + 4*u*t*t*t*x3 + t*t*t*t*x4
+//@ end
+
+//@ func BezierSpline.f0
+//@   property C17
+//@   id point-of-the-curve
+//@   pure
+//@   requires bpwf(s.px) && bpwf(s.py)
+//@   ensures [x-and-y-polynomials-at-the-same-parameter] r.X == horner(s.px, t) && r.Y == horner(s.py, t)
+//@ end
+
+//@ func Polygon.AddV2
+//@   property C17
+//@   id appends-a-plain-vertex
+//@   modular
+//@   havoc p.vlist
+//@   ensures [one-more-vertex] len(p.vlist) == old(len(p.vlist)) + 1
+//@   ensures [the-given-point-as-a-plain-absolute-vertex-at-the-end] p.vlist[old(len(p.vlist))].vertex == x && p.vlist[old(len(p.vlist))].vtype == pvNormal && !p.vlist[old(len(p.vlist))].relative && p.vlist[old(len(p.vlist))].radius == 0 && p.vlist[old(len(p.vlist))].facets == 0
+//@   ensures [earlier-vertices-untouched] forall k int :: 0 <= k && k < old(len(p.vlist)) ==> p.vlist[k] == old(p.vlist[k])
+//@ end
+
+//@ func BezierSpline.Sample
+//@   property C17
+//@   id one-level
+//@   modular
+//@   havoc p.vlist
+//@   requires t0 < t1
+//@   requires bpwf(s.px) && bpwf(s.py)
+//@   requires p0 == s.f0(t0) && p1 == s.f0(t1)
+//@   let tmid = (t0 + t1)/2
+//@   let pmid = s.f0(tmid)
+//@   let flat = nev("call:BezierSpline.Sample") == 0
+//@   ensures [either-the-span-is-emitted-as-one-segment-or-it-is-halved] nev("call:BezierSpline.Sample") == 0 || nev("call:BezierSpline.Sample") == 2
+//@   ensures [a-flat-span-at-the-start-of-the-curve-adds-both-its-end-points] flat && t0 == 0 ==> nev("call:Polygon.AddV2") == 2 && evarg("call:Polygon.AddV2", 0, 1) == p0 && evarg("call:Polygon.AddV2", 1, 1) == p1
+//@   ensures [a-later-flat-span-adds-only-its-far-end-point] flat && t0 != 0 ==> nev("call:Polygon.AddV2") == 1 && evarg("call:Polygon.AddV2", 0, 1) == p1
+//@   ensures [a-curved-span-is-split-at-the-middle-parameter-first-half-first] !flat ==> nev("call:Polygon.AddV2") == 0 && evarg("call:BezierSpline.Sample", 0, 2) == t0 && evarg("call:BezierSpline.Sample", 0, 3) == tmid && evarg("call:BezierSpline.Sample", 1, 2) == tmid && evarg("call:BezierSpline.Sample", 1, 3) == t1
+//@   ensures [with-the-curve-points-at-those-parameters] !flat ==> evarg("call:BezierSpline.Sample", 0, 4) == p0 && evarg("call:BezierSpline.Sample", 0, 5) == pmid && evarg("call:BezierSpline.Sample", 1, 4) == pmid && evarg("call:BezierSpline.Sample", 1, 5) == p1
+//@   ensures [into-the-same-polygon-one-level-deeper] !flat ==> evptr("call:BezierSpline.Sample", 0, 1) == p && evptr("call:BezierSpline.Sample", 1, 1) == p && evptr("call:BezierSpline.Sample", 0, 0) == s && evptr("call:BezierSpline.Sample", 1, 0) == s && evarg("call:BezierSpline.Sample", 0, 6) == n + 1 && evarg("call:BezierSpline.Sample", 1, 6) == n + 1 && n <= 8
+//@ end
+
+//@ func BezierPolynomial.Set
+//@   property C17
+//@   id summary
+//@   modular
+//@   havoc p.n
+//@   havoc p.a
+//@   havoc p.b
+//@   havoc p.c
+//@   havoc p.d
+//@   havoc p.e
+//@   requires 1 <= len(x) && len(x) <= 5
+//@   requires p.a == 0 && p.b == 0 && p.c == 0 && p.d == 0 && p.e == 0
+//@   ensures [well-formed] bpwf(p) && p.n <= len(x) - 1
+//@ end
+
+//@ func NewBezierSpline
+//@   property C17
+//@   id x-and-y-polynomials-of-the-control-points
+//@   modular
+//@   requires 1 <= len(p) && len(p) <= 5
+//@   invariant 0 rangeindex >= -1 && rangeindex < len(p) && len(x) == len(p) && len(y) == len(p)
+//@   invariant 0 forall k int :: 0 <= k && k <= rangeindex ==> x[k] == p[k].X && y[k] == p[k].Y
+//@   let xs = evarg("call:BezierPolynomial.Set", 0, 1)
+//@   let ys = evarg("call:BezierPolynomial.Set", 1, 1)
+//@   ensures [a-spline] !isnil(r) && r.tolerance == 0.02
+//@   ensures [x-polynomial-from-the-x-coordinates-y-from-the-y-coordinates] nev("call:BezierPolynomial.Set") == 2 && evptr("call:BezierPolynomial.Set", 0, 0) == &r.px && evptr("call:BezierPolynomial.Set", 1, 0) == &r.py && len(xs) == len(p) && len(ys) == len(p)
+//@   ensures [in-control-point-order] forall k int :: 0 <= k && k < len(p) ==> xs[k] == p[k].X && ys[k] == p[k].Y
+//@   ensures [both-well-formed] bpwf(r.px) && bpwf(r.py)
+//@ end
+
+//@ func Polygon.relToAbs
+//@   property C17
+//@   id relative-to-absolute
+//@   requires len(p.vlist) >= 1 && !p.vlist[0].relative
+//@   invariant 0 rangeindex >= -1 && rangeindex < len(p.vlist) && len(p.vlist) == pre(len(p.vlist))
+//@   invariant 0 forall k int :: 0 <= k && k <= rangeindex ==> !p.vlist[k].relative
+//@   invariant 0 forall k int :: 1 <= k && k <= rangeindex ==> p.vlist[k].vertex == ite(pre(p.vlist[k].relative), pre(p.vlist[k].vertex).Add(p.vlist[k - 1].vertex), pre(p.vlist[k].vertex))
+//@   invariant 0 rangeindex >= 0 ==> p.vlist[0].vertex == pre(p.vlist[0].vertex)
+//@   invariant 0 forall k int :: rangeindex < k && k < len(p.vlist) ==> p.vlist[k].relative == pre(p.vlist[k].relative) && p.vlist[k].vertex == pre(p.vlist[k].vertex)
+//@   invariant 0 forall k int :: 0 <= k && k < len(p.vlist) ==> p.vlist[k].vtype == pre(p.vlist[k].vtype) && p.vlist[k].facets == pre(p.vlist[k].facets) && p.vlist[k].radius == pre(p.vlist[k].radius)
+//@   ensures [no-error-when-the-first-vertex-is-absolute] isnil(r)
+//@   ensures [every-vertex-absolute-afterwards] forall k int :: 0 <= k && k < len(p.vlist) ==> !p.vlist[k].relative
+//@   ensures [a-relative-vertex-is-its-offset-added-to-the-resolved-previous-vertex] forall k int :: 1 <= k && k < len(p.vlist) ==> p.vlist[k].vertex == ite(old(p.vlist[k].relative), old(p.vlist[k].vertex).Add(p.vlist[k - 1].vertex), old(p.vlist[k].vertex))
+//@   ensures [first-vertex-and-everything-else-kept] len(p.vlist) == old(len(p.vlist)) && p.vlist[0].vertex == old(p.vlist[0].vertex)
+//@   ensures [smoothing-and-arc-marks-kept] forall k int :: 0 <= k && k < len(p.vlist) ==> p.vlist[k].vtype == old(p.vlist[k].vtype) && p.vlist[k].facets == old(p.vlist[k].facets) && p.vlist[k].radius == old(p.vlist[k].radius)
+//@ end
+
+//@ func Polygon.fixups
+//@   property C17
+//@   id frame
+//@   modular
+//@   trusted call sites see only that the fix-up passes rewrite the vertex list (what each pass does is the subject of relToAbs, arcVertex and smoothVertex)
+//@   havoc p.vlist
+//@   ensures [returns] true
+//@ end
+
+//@ func Polygon.Vertices
+//@   property C17
+//@   id order
+//@   invariant 0 rangeindex >= -1 && rangeindex < len(p.vlist) && len(v) == n && n == len(p.vlist)
+//@   invariant 0 forall k int :: 0 <= k && k <= rangeindex ==> v[n - 1 - k] == p.vlist[k].vertex
+//@   invariant 1 rangeindex >= -1 && rangeindex < len(p.vlist) && len(v) == n && n == len(p.vlist)
+//@   invariant 1 forall k int :: 0 <= k && k <= rangeindex ==> v[k] == p.vlist[k].vertex
+//@   ensures [an-empty-polygon-has-no-vertices] old(isnil(p.vlist)) ==> isnil(r)
+//@   atentry 0 nev("call:Polygon.fixups") == 1
+//@   atentry 1 nev("call:Polygon.fixups") == 1
+//@   ensures [one-point-per-vertex-after-the-fix-ups] !old(isnil(p.vlist)) ==> len(r) == len(p.vlist)
+//@   ensures [in-list-order] forall k int :: !old(isnil(p.vlist)) && !p.reverse && 0 <= k && k < len(p.vlist) ==> r[k] == p.vlist[k].vertex
+//@   ensures [or-in-reverse-order-when-asked] forall k int :: !old(isnil(p.vlist)) && p.reverse && 0 <= k && k < len(p.vlist) ==> r[len(p.vlist) - 1 - k] == p.vlist[k].vertex
+//@ end
+
+//@ func Polygon.nextVertex
+//@   property C17
+//@   id ring-successor
+//@   requires 0 <= i && i < len(p.vlist)
+//@   ensures [next-in-the-list-wrapping-when-closed] i < len(p.vlist) - 1 ==> r == &p.vlist[i + 1]
+//@   ensures [wraps-to-the-first-when-closed] i == len(p.vlist) - 1 && p.closed ==> r == &p.vlist[0]
+//@   ensures [open-end-has-none] i == len(p.vlist) - 1 && !p.closed ==> isnil(r)
+//@ end
+
+//@ func Polygon.prevVertex
+//@   property C17
+//@   id ring-predecessor
+//@   requires 0 <= i && i < len(p.vlist)
+//@   ensures [previous-in-the-list] i > 0 ==> r == &p.vlist[i - 1]
+//@   ensures [wraps-to-the-last-when-closed] i == 0 && p.closed ==> r == &p.vlist[len(p.vlist) - 1]
+//@   ensures [open-end-has-none] i == 0 && !p.closed ==> isnil(r)
+//@ end
+
+//@ func Polygon.smoothVertex
+//@   property C17
+//@   id fillet-structure
+//@   requires 0 <= i && i < len(p.vlist) && len(p.vlist) >= 3
+//@   requires p.vlist[i].vtype == pvSmooth ==> p.vlist[i].facets >= 1
+//@   prelet n0 = len(p.vlist)
+//@   prelet f = p.vlist[i].facets
+//@   prelet vx = p.vlist[i].vertex
+//@   forget 0 p0 c rm v0 v1 d1 d2 theta dtheta vc
+//@   invariant 0 rangeindex >= -1 && rangeindex < len(points) && len(points) == f + 1
+//@   invariant 0 rm[0] == rm[3] && rm[1] == -rm[2] && sq(rm[0]) + sq(rm[2]) == 1
+//@   invariant 0 rv.Length2() == p0.Sub(c).Length2()
+//@   invariant 0 forall k int :: 0 <= k && k <= rangeindex ==> points[k].vertex.Sub(c).Length2() == p0.Sub(c).Length2() && points[k].vtype == pvNormal && !points[k].relative
+//@   invariant 0 rangeindex >= 0 ==> points[0].vertex == p0
+//@   invariant 0 rangeindex == -1 ==> rv == p0.Sub(c)
+//@   atentry 0 p0 == vx.Add(vp.vertex.Sub(vx).Normalize().MulScalar(d1)) && d1 <= vp.vertex.Sub(vx).Length() && d1 <= vn.vertex.Sub(vx).Length()
+//@   atentry 0 c == vx.Add(vp.vertex.Sub(vx).Normalize().Add(vn.vertex.Sub(vx).Normalize()).Normalize().MulScalar(d2))
+//@   ensures [a-vertex-that-is-not-smoothed-leaves-the-polygon-untouched] !r ==> len(p.vlist) == n0
+//@   ensures [and-every-vertex-as-it-was] forall k int :: !r && 0 <= k && k < n0 ==> p.vlist[k] == old(p.vlist[k])
+//@   ensures [only-marked-vertices-are-smoothed] r ==> old(p.vlist[i].vtype) == pvSmooth
+//@   ensures [the-vertex-is-replaced-by-facets-plus-one-points] r ==> len(p.vlist) == n0 + f
+//@   ensures [vertices-before-it-kept] forall k int :: r && 0 <= k && k < i ==> p.vlist[k] == old(p.vlist[k])
+//@   ensures [vertices-after-it-kept-in-order] forall k int :: r && i < k && k < n0 ==> p.vlist[k + f] == old(p.vlist[k])
+//@   ensures [the-new-points-are-plain-absolute-vertices] forall k int :: r && 0 <= k && k <= f ==> p.vlist[i + k].vtype == pvNormal && !p.vlist[i + k].relative
+//@   ensures [all-on-one-circle-about-the-fillet-centre] forall k int :: r && 0 <= k && k <= f ==> p.vlist[i + k].vertex.Sub(c).Length2() == p0.Sub(c).Length2()
+//@   ensures [starting-at-the-tangent-point-on-the-edge-to-the-previous-vertex] r ==> p.vlist[i].vertex == p0
 //@ end
